@@ -400,6 +400,12 @@ func (w *treeWorld) exec(r *Run, line string) {
 				if err == nil {
 					r.Emit(line, "ok")
 					r.Fail(fmt.Sprintf("[C07] AddLeaf swallowed a storage error at statement %d", k), cp())
+					// what the tree now reports for this deposit count against the contract's algorithm
+					refc := w.ref // a copy (value type)
+					refc.add(leaf)
+					if root, e := w.ao.GetLastRoot(w.tx); e == nil && root.Hash != refc.root() {
+						r.Fail(fmt.Sprintf("[C01] after a storage error that AddLeaf did not report (statement %d) the tree records root %s for leaf %d, the contract's root is %s", k, root.Hash.Hex(), idx, refc.root().Hex()), cp())
+					}
 				} else {
 					r.Emit(line, "err fault")
 				}
